@@ -88,8 +88,13 @@ partial def parseCT : P CT := do
   if ← eatStr "TSW[" then
     let s ← scalarOf (← identStr); expect ','; let p ← number; expect ','; let m ← number; expect ']'
     return .tsw s p m
+  if ← eatStr "TSB<" then
+    -- a NAMED bundle (`TypeRegistry::tsb(name, fields)`); the registry's name space (one name, one field list,
+    -- a conflicting re-declaration throws) is outside the model: the generator derives the name from the field list
+    let nm ← intern (← identStr); expect '>'; expect '['
+    let fs ← parseCFields; expect ']'; return .tsb (some nm) fs
   if ← eatStr "TSB[" then
-    let fs ← parseCFields; expect ']'; return .tsb fs
+    let fs ← parseCFields; expect ']'; return .tsb none fs
   if ← eatStr "REF[" then
     let t ← parseCT; expect ']'; return mkRef t
   if ← eatStr "TS[" then
@@ -150,8 +155,11 @@ partial def parseTP : P TP := do
     return .tsw s (some (p, m))
   if ← eatStr "TSB[~" then
     let n ← intern (← identStr); expect ']'; return .tsbVar n
+  if ← eatStr "TSB<" then
+    let nm ← intern (← identStr); expect '>'; expect '['
+    let fs ← parsePFields; expect ']'; return .tsb (some nm) fs
   if ← eatStr "TSB[" then
-    let fs ← parsePFields; expect ']'; return .tsb fs
+    let fs ← parsePFields; expect ']'; return .tsb none fs
   if ← eatStr "REF[" then
     let t ← parseTP; expect ']'; return .ref t
   if ← eatStr "TS[" then
@@ -183,7 +191,8 @@ partial def showCT (syms : Array String) : CT → String
   | .tsl e n => s!"TSL[{showCT syms e},{n}]"
   | .tsd k v => s!"TSD[{scalarName k},{showCT syms v}]"
   | .tsw s p m => s!"TSW[{scalarName s},{p},{m}]"
-  | .tsb fs => s!"TSB[{showCFields syms fs}]"
+  | .tsb none fs => s!"TSB[{showCFields syms fs}]"
+  | .tsb (some nm) fs => s!"TSB<{symName syms nm}>[{showCFields syms fs}]"
   | .ref t => s!"REF[{showCT syms t}]"
   | .signal => "SIGNAL"
 partial def showCFields (syms : Array String) : CFields → String
